@@ -131,6 +131,8 @@ class TableMixin:
         st, rest = stmts[0], stmts[1:]
         if isinstance(st, (ast.Return, ast.Raise)):
             return True
+        if isinstance(st, ast.Continue):
+            return False                         # this member is done: nothing after the continue runs for it
         if isinstance(st, ast.Pass) or (isinstance(st, ast.Expr) and isinstance(st.value, ast.Constant)):
             return self.leave_cond(ex, rest)
         if isinstance(st, ast.If):
@@ -143,6 +145,18 @@ class TableMixin:
     def quantified(self, ex, gen, want_all):
         """any(E for x in TABLE) / all(E for x in TABLE) -> python bool of the path taken"""
         node, table = gen.info["node"], gen.info["table"]
+        if node.generators[0].ifs:
+            # any(E for x in T if C) == any(C and E for x in T);  all(E for x in T if C) == all(not C or E for x in T)
+            conds = list(node.generators[0].ifs)
+            g = node.generators[0]
+            if want_all:
+                elt = ast.BoolOp(op=ast.Or(), values=[ast.UnaryOp(op=ast.Not(), operand=ast.BoolOp(op=ast.And(), values=conds)
+                                                                  if len(conds) > 1 else conds[0]), node.elt])
+            else:
+                elt = ast.BoolOp(op=ast.And(), values=conds + [node.elt])
+            node = ast.GeneratorExp(elt=elt, generators=[ast.comprehension(target=g.target, iter=g.iter, ifs=[], is_async=0)])
+            ast.copy_location(node, gen.info["node"])
+            ast.fix_missing_locations(node)
         saved = dict(ex.env)
         target = node.generators[0].target
         items = gen.info.get("items")
@@ -245,7 +259,7 @@ class TableMixin:
 
     def comprehension(self, ex, node):
         # (E for x in TABLE): a value that any() / all() consume as a quantifier over the table's members
-        if isinstance(node, ast.GeneratorExp) and len(node.generators) == 1 and not node.generators[0].ifs:
+        if isinstance(node, ast.GeneratorExp) and len(node.generators) == 1:
             itv = ex.expr(node.generators[0].iter)
             if isinstance(itv, ObjV) and itv.role == "mixed-iter":
                 return ObjV("genexp", info={"node": node, "table": self.table_of(ex, itv.info["rest"]), "items": itv.info["items"]})
